@@ -10,9 +10,17 @@
    Go code exactly (see the comment next to every program point).  Closing a channel that is
    closed or nil is [Panic].
 
+   Job.Wait / IsDone (and the caller who then looks at Status / Error / Result) read WITHOUT the
+   lock, so the order of the writes INSIDE the write-locked sections of handle and Cancel is
+   observable: those sections are cut into their individual writes.  The shared state carries
+   [held]: None, or what is left of the critical section of the one thread that holds the write
+   lock ([cs]); while it is Some, every step that has to take the lock (read or write) stutters,
+   the unlocked accesses of all threads go on.
+
    [step] is the code as it is in /repo now; [Pinned.step] is a copy of the code as it was on
    the pinned tree (before the two repairs), kept for the refutation lemmas. *)
 From XMT Require Import Base.Prelude Model.JobSched.
+From XMT Require Model.Codec.
 
 (* ---- job status (c2/job.go) ---------------------------------------------------------- *)
 Definition StWaiting   : Z := 0.
@@ -39,11 +47,33 @@ Record job := mkJob {
   jorph   : bool    (* ghost: the table entry of this job was overwritten by a later Task *)
 }.
 
+(* what is left of the write-locked section of handle (H..) / Cancel (C..), next write first *)
+Inductive cs :=
+| HRes (h : nat) (err : bool) (tag : Z) (pl : list Z)  (* j.Result (and Complete) = p *)
+| HSt (h : nat) (err : bool) (tag : Z) (pl : list Z)   (* j.Status = StatusCompleted *)
+| HErrSt (h : nat) (tag : Z) (pl : list Z)             (* FlagError: j.Status = StatusError *)
+| HErrTxt (h : nat) (tag : Z) (pl : list Z)            (* p.ReadString(&j.Error) / j.Error = err.Error() *)
+| HInfo (h : nat) (tag : Z)                            (* else: handleInfoResult(j.ID, j.Type, j.Result) reads j.Result *)
+| HDel (h : nat) (err : bool) (tag : Z)                (* delete(s.jobs, j.ID) *)
+| HClose (h : nat) (err : bool) (tag : Z)              (* if j.done != nil { close(j.done) *)
+| HNil (h : nat)                                       (* j.done = nil }; Unlock *)
+| CSt (h : nat)                                        (* Cancel: j.Status = StatusCanceled; which branch? *)
+| CDel (h : nat)                                       (* tracked branch: j.s.jobs[j.ID] = nil; delete(j.s.jobs, j.ID) *)
+| CClose (h : nat)                                     (* close(j.done) *)
+| CStNil (h : nat).                                    (* j.Status, j.done = StatusCanceled, nil; Unlock *)
+
+Definition cs_job (c : cs) : nat :=
+  match c with
+  | HRes h _ _ _ | HSt h _ _ _ | HErrSt h _ _ | HErrTxt h _ _ | HInfo h _ | HDel h _ _ | HClose h _ _
+  | HNil h | CSt h | CDel h | CClose h | CStNil h => h
+  end.
+
 Record sess := mkSess {
   jobs  : list job;          (* every Job ever created, in creation order *)
-  table : list (Z * nat)     (* Session.jobs: job number -> job *)
+  table : list (Z * nat);    (* Session.jobs: job number -> job *)
+  held  : option cs          (* Session.lock is write-locked by a handle / Cancel: what it still has to do *)
 }.
-Definition s0 : sess := mkSess [] [].
+Definition s0 : sess := mkSess [] [] None.
 
 Fixpoint lookup (i : Z) (t : list (Z * nat)) : option nat :=
   match t with
@@ -59,8 +89,10 @@ Definition mem (i : Z) (t : list (Z * nat)) : bool :=
   match lookup i t with Some _ => true | None => false end.
 
 Definition getj (s : sess) (h : nat) : option job := nth_error (jobs s) h.
-Definition setj (s : sess) (h : nat) (j : job) : sess := mkSess (upd (jobs s) h j) (table s).
-Definition set_table (s : sess) (t : list (Z * nat)) : sess := mkSess (jobs s) t.
+Definition setj (s : sess) (h : nat) (j : job) : sess := mkSess (upd (jobs s) h j) (table s) (held s).
+Definition set_table (s : sess) (t : list (Z * nat)) : sess := mkSess (jobs s) t (held s).
+Definition set_held (s : sess) (c : option cs) : sess := mkSess (jobs s) (table s) c.
+Definition is_held (s : sess) : bool := match held s with Some _ => true | None => false end.
 
 Definition with_status (j : job) (st : Z) : job :=
   mkJob (jid j) st (jdone j) (jres j) (jerr j) (jfrags j) (jorph j).
@@ -89,9 +121,9 @@ Definition new_job_id (draws : list Z) (t : list (Z * nat)) : Z := pick_id 512 d
 Inductive op :=
 | OTask (id : Z) (draws : list Z) (full : bool)  (* Session.Task(n): n.Job = id (0: allocate); full: send queue full *)
 | ONew (draws : list Z)                          (* Session.newJobID() *)
-| OHandle (wf : bool) (id : Z) (err : bool) (tag : Z)
+| OHandle (wf : bool) (id : Z) (err : bool) (tag : Z) (pl : list Z)
      (* Session.handle(p): wf = (p.ID = RvResult and p.Device not empty), p.Job = id,
-        err = FlagError set, tag names the packet *)
+        err = FlagError set, tag names the packet, pl = the payload bytes of p *)
 | OCancel (h : nat)                              (* Job.Cancel *)
 | OWait (h : nat)                                (* Job.Wait *)
 | OIsDone (h : nat)                              (* Job.IsDone *)
@@ -134,12 +166,13 @@ Inductive pc :=
 (* newJobID *)
 | PNew (draws : list Z)                           (* [RLock] the whole loop *)
 (* handle *)
-| PH0 (wf : bool) (id : Z) (err : bool) (tag : Z) (* packet checks; unlocked len(s.jobs) == 0 *)
-| PH1 (id : Z) (err : bool) (tag : Z)             (* [RLock] j, ok := s.jobs[p.Job] *)
-| PH2 (h : nat) (err : bool) (tag : Z)            (* [Lock] re-check membership; record result, status; delete; close done *)
+| PH0 (wf : bool) (id : Z) (err : bool) (tag : Z) (pl : list Z) (* packet checks; unlocked len(s.jobs) == 0 *)
+| PH1 (id : Z) (err : bool) (tag : Z) (pl : list Z)             (* [RLock] j, ok := s.jobs[p.Job] *)
+| PH2 (h : nat) (err : bool) (tag : Z) (pl : list Z)            (* [Lock] re-check membership; not tracked: Unlock, false *)
+| PCS (r : ret)                                   (* inside the write-locked section: the next write of [held]; returns r after Unlock *)
 (* Cancel *)
 | PC0 (h : nat)                                   (* unlocked: j.done == nil ? *)
-| PC1 (h : nat)                                   (* [Lock] the whole body *)
+| PC1 (h : nat)                                   (* [Lock] j.done == nil ? Unlock *)
 (* Wait *)
 | PW0 (h : nat)                                   (* unlocked: load j.done; nil ? *)
 | PW1 (h : nat)                                   (* <-done on the loaded channel *)
@@ -159,7 +192,7 @@ Definition init_pc (o : op) : pc :=
   match o with
   | OTask id draws full => PTask0 id draws full
   | ONew draws => PNew draws
-  | OHandle wf id err tag => PH0 wf id err tag
+  | OHandle wf id err tag pl => PH0 wf id err tag pl
   | OCancel h => PC0 h
   | OWait h => PW0 h
   | OIsDone h => PI0 h
@@ -181,7 +214,7 @@ Definition insert_job (s : sess) (id : Z) : sess :=
                          end
             | None => jobs s
             end in
-  mkSess (js ++ [new_job id]) ((id, length (jobs s)) :: remove id (table s)).
+  mkSess (js ++ [new_job id]) ((id, length (jobs s)) :: remove id (table s)) (held s).
 
 (* the steps shared by both versions of the code *)
 Definition step_common (p : pc) (s : sess) : res (pc * sess) :=
@@ -242,34 +275,84 @@ Definition step_common (p : pc) (s : sess) : res (pc * sess) :=
   | _ => Ok (p, s)
   end.
 
-(* close(j.done); j.done = nil -- inside one critical section *)
+(* close(j.done); j.done = nil -- the old code (Pinned) in one piece *)
 Definition close_nil (j : job) : res job :=
   do _ <- close_chan (jdone j); Ok (with_done j Nil).
 
-Definition step (p : pc) (s : sess) : res (pc * sess) :=
+(* len(j.Error) > 0 after `if err := p.ReadString(&j.Error); err != nil { j.Error = err.Error() }`:
+   ReadString = Chunk.Bytes on the payload (Model/Codec.v rd_bytes); every failure has a non-empty text *)
+Definition err_nonempty (pl : list Z) : bool :=
+  match Codec.rd_bytes pl with
+  | Ok (b, _) => negb (is_nil b)
+  | _ => true
+  end.
+
+(* one write of the lock holder; the last one also unlocks *)
+Definition cs_step (c : cs) (s : sess) : res sess :=
+  match getj s (cs_job c) with
+  | None => Ok (set_held s None)
+  | Some j =>
+    let h := cs_job c in
+    match c with
+    | HRes _ err tag pl => Ok (set_held (setj s h (with_res j tag)) (Some (HSt h err tag pl)))
+    | HSt _ err tag pl =>
+        Ok (set_held (setj s h (with_status j StCompleted)) (Some (if err then HErrSt h tag pl else HInfo h tag)))
+    | HErrSt _ tag pl => Ok (set_held (setj s h (with_status j StError)) (Some (HErrTxt h tag pl)))
+    | HErrTxt _ tag pl => Ok (set_held (setj s h (with_err j (err_nonempty pl))) (Some (HDel h true tag)))
+    | HInfo _ tag => Ok (set_held s (Some (HDel h false tag)))
+    | HDel _ err tag => Ok (set_held (set_table s (remove (jid j) (table s))) (Some (HClose h err tag)))
+    | HClose _ err tag =>
+        match jdone j with
+        | Nil => Ok (set_held s None)
+        | d => do d' <- close_chan d; Ok (set_held (setj s h (with_done j d')) (Some (HNil h)))
+        end
+    | HNil _ => Ok (set_held (setj s h (with_done j Nil)) None)
+    | CSt _ =>
+        let tracked := match lookup (jid j) (table s) with Some h' => Nat.eqb h' h | None => false end in
+        Ok (set_held (setj s h (with_status j StCanceled)) (Some (if tracked then CDel h else CClose h)))
+    | CDel _ => Ok (set_held (set_table s (remove (jid j) (table s))) (Some (CClose h)))
+    | CClose _ => do d' <- close_chan (jdone j); Ok (set_held (setj s h (with_done j d')) (Some (CStNil h)))
+    | CStNil _ => Ok (set_held (setj s h (with_done (with_status j StCanceled) Nil)) None)
+    end
+  end.
+
+(* the steps that have to take Session.lock (RLock or Lock): they wait while it is write-locked *)
+Definition needs_lock (p : pc) : bool :=
   match p with
-  | PH0 wf id err tag =>
+  | PTask0 id _ _ => id =? 0
+  | PTask1 _ _ | PTask3 _ | PNew _ | PH1 _ _ _ _ | PH2 _ _ _ _ | PC1 _
+  | PJobs1 | PJob1 _ | PA1 _ | PF1 _ _ => true
+  | _ => false
+  end.
+
+Definition step_free (p : pc) (s : sess) : res (pc * sess) :=
+  match p with
+  | PH0 wf id err tag pl =>
       if negb wf || (id <? 2) then Ok (PDone (RBool false), s)
       else if is_nil (table s) then Ok (PDone (RBool false), s)
-      else Ok (PH1 id err tag, s)
-  | PH1 id err tag =>
+      else Ok (PH1 id err tag pl, s)
+  | PH1 id err tag pl =>
       match lookup id (table s) with
       | None => Ok (PDone (RBool false), s)
-      | Some h => Ok (PH2 h err tag, s)
+      | Some h => Ok (PH2 h err tag pl, s)
       end
-  | PH2 h err tag =>
+  | PH2 h err tag pl =>
       match getj s h with
       | None => Ok (PDone (RBool false), s)
       | Some j =>
           match lookup (jid j) (table s) with
           | Some h' =>
-              if Nat.eqb h' h then
-                let j1 := with_err (with_status (with_res j tag) (if err then StError else StCompleted)) err in
-                do j2 <- match jdone j1 with Nil => Ok j1 | _ => close_nil j1 end;
-                Ok (PDone (RBool true), set_table (setj s h j2) (remove (jid j) (table s)))
+              if Nat.eqb h' h then Ok (PCS (RBool true), set_held s (Some (HRes h err tag pl)))
               else Ok (PDone (RBool false), s)
           | None => Ok (PDone (RBool false), s)
           end
+      end
+  | PCS r =>
+      match held s with
+      | None => Ok (PDone r, s)
+      | Some c =>
+          do s' <- cs_step c s;
+          Ok (match held s' with None => PDone r | Some _ => PCS r end, s')
       end
   | PC0 h =>
       match getj s h with
@@ -282,19 +365,14 @@ Definition step (p : pc) (s : sess) : res (pc * sess) :=
       | Some j =>
           match jdone j with
           | Nil => Ok (PDone RUnit, s)
-          | _ =>
-            do j1 <- close_nil j;
-            let j2 := with_status j1 StCanceled in
-            match lookup (jid j) (table s) with
-            | Some h' =>
-                if Nat.eqb h' h then Ok (PDone RUnit, set_table (setj s h j2) (remove (jid j) (table s)))
-                else Ok (PDone RUnit, setj s h j2)
-            | None => Ok (PDone RUnit, setj s h j2)
-            end
+          | _ => Ok (PCS RUnit, set_held s (Some (CSt h)))
           end
       end
   | _ => step_common p s
   end.
+
+Definition step (p : pc) (s : sess) : res (pc * sess) :=
+  if needs_lock p && is_held s then Ok (p, s) else step_free p s.
 
 (* ==================================================================================== *)
 (* The code as it was on the pinned tree (copy kept for the refutation lemmas).         *)
@@ -322,8 +400,8 @@ Module Pinned.
 
   Definition step (q : opc) (s : sess) : res (opc * sess) :=
     match q with
-    | Com (PH0 wf id err tag) => lift (step (PH0 wf id err tag) s)
-    | Com (PH1 id err tag) =>
+    | Com (PH0 wf id err tag pl) => lift (step (PH0 wf id err tag pl) s)
+    | Com (PH1 id err tag pl) =>
         match lookup id (table s) with
         | None => Ok (Com (PDone (RBool false)), s)
         | Some h => Ok (QH2 h err tag, s)
@@ -389,7 +467,7 @@ Module Pinned.
               do j1 <- close_nil j;
               Ok (Com (PDone RUnit), set_table (setj s h j1) (remove (jid j) (table s)))
         end
-    | Com (PH2 _ _ _) | Com (PC1 _) => Ok (q, s)     (* not program points of the old code *)
+    | Com (PH2 _ _ _ _) | Com (PC1 _) | Com (PCS _) => Ok (q, s)     (* not program points of the old code *)
     | Com p => lift (step_common p s)
     end.
 End Pinned.
@@ -405,7 +483,7 @@ Fixpoint run_solo (fuel : nat) (p : pc) (s : sess) : res (ret * sess) :=
          | S f => do '(p', s') <- step p s; run_solo f p' s'
          end
   end.
-Definition apply_op (o : op) (s : sess) : res (ret * sess) := run_solo 8 (init_pc o) s.
+Definition apply_op (o : op) (s : sess) : res (ret * sess) := run_solo 16 (init_pc o) s.
 
 Fixpoint run_ops (os : list op) (s : sess) : res (list ret * sess) :=
   match os with
@@ -552,15 +630,21 @@ Definition c14_ev (e : ev op) : bool := match e with Spawn o => c14_op o | Run _
 Definition c14_pc (p : pc) : bool :=
   match p with PA0 _ | PA1 _ | PA2 _ | PF0 _ _ | PF1 _ _ | PF2 _ _ => false | _ => true end.
 
-(* the finishing events: the critical section of handle that records a result, the critical
-   section of Cancel.  [commit p] = the job it may finish, the status it records, the result
-   tag it stores (None: Result is left alone) *)
-Definition commit (p : pc) : option (nat * Z * option Z) :=
-  match p with
-  | PH2 h err tag => Some (h, if err then StError else StCompleted, Some tag)
-  | PC1 h => Some (h, StCanceled, None)
+(* the finishing events.  A job is RELEASED (its waiters return, IsDone says true) by the one
+   write that closes done: [publishes c] = the job that write releases, the status and the
+   result tag (None: Result is left alone) of the event whose critical section it belongs to *)
+Definition publishes (c : cs) : option (nat * Z * option Z) :=
+  match c with
+  | HClose h err tag => Some (h, if err then StError else StCompleted, Some tag)
+  | CClose h => Some (h, StCanceled, None)
   | _ => None
   end.
+Definition released (s : sess) (h : nat) : Prop := exists j, getj s h = Some j /\ jdone j <> Open.
+(* the job whose write-locked section (handle / Cancel) is in progress *)
+Definition in_progress (s : sess) (h : nat) : bool :=
+  match held s with Some c => Nat.eqb (cs_job c) h | None => false end.
+(* what a reader sees of the outcome *)
+Definition outcome (j : job) : Z * Z * bool := (jstatus j, jres j, jerr j).
 
 (* the job record after a finishing event: status st, done = nil, result tag r, error flag e *)
 Definition fin_job (j : job) (st r : Z) (e : bool) : job :=
